@@ -28,7 +28,7 @@ const (
 
 // Case is the replayable unit.
 type Case struct {
-	Kind string `json:"kind"` // "sanitiser" | "rendered"
+	Kind string `json:"kind"` // "sanitiser" | "history" | "rendered"
 	Sink string `json:"sink,omitempty"`
 	P    string `json:"p"` // base64
 	V    string `json:"v"` // base64
@@ -154,6 +154,16 @@ func checkMemo(emitted, p string) Clause {
 // shrinkStr: greedy byte-wise deletion to a fixed point, then replacement of
 // letters by 'a' where the predicate keeps holding.
 func shrinkStr(s string, bad func(string) bool) string {
+	// long witnesses (long-value family): delete halves, quarters, … first
+	for chunk := len(s) / 2; chunk >= 2 && len(s) > 64; chunk /= 2 {
+		for i := 0; i+chunk <= len(s); {
+			if t := s[:i] + s[i+chunk:]; bad(t) {
+				s = t
+			} else {
+				i += chunk
+			}
+		}
+	}
 	for changed := true; changed; {
 		changed = false
 		for i := 0; i < len(s); i++ {
@@ -410,6 +420,43 @@ func random(c *core.Ctx, n int) stream {
 	}}
 }
 
+// longLengths: sizes around typical limits; a sanitiser that truncates,
+// buffers or switches algorithm by length changes behaviour exactly there.
+var longLengths = []int{255, 256, 257, 1023, 1024, 1025, 1026, 2047, 2048, 2049, 4095, 4096, 4097, 65535, 65536, 65537}
+
+// longShapes are values the sanitisers accept (closed strings / url tokens,
+// comma lists, plain words); %s is padded so that the whole value has exactly
+// the target length. pad units include a multi-byte rune (cuts on or inside a
+// UTF-8 sequence).
+var longShapes = []string{`"%s"`, `"a", "%s"`, `serif, "%s"`, `"%s", serif`, `"%s", "b"`, `url("/%s")`, `url('/%s')`, `url(/%s)`, `url("http://x/%s")`,
+	`url("/a"), url("/%s")`, `url("/%s"), url("/a")`, `a%s`, `a a%s`}
+
+func longValue(shape, unit string, total int) string {
+	n := total - (len(shape) - 2)
+	if n < 0 {
+		n = 0
+	}
+	pad := strings.Repeat(unit, n/len(unit)+1)[:n/len(unit)*len(unit)]
+	for len(pad) < n { // fill the remainder with ASCII so the length is exact
+		pad += "a"
+	}
+	return strings.Replace(shape, "%s", pad, 1)
+}
+
+func longValues() stream {
+	units := []string{"a", "é", "中", "a b", "a/b-"}
+	return stream{"long-values", len(longShapes), func(part int, emit func(string)) {
+		for _, u := range units {
+			if strings.Contains(longShapes[part], "url(") && strings.Contains(u, " ") {
+				continue
+			}
+			for _, n := range longLengths {
+				emit(longValue(longShapes[part], u, n))
+			}
+		}
+	}}
+}
+
 // nontrivial: the value carries a CSS delimiter, function, quote, escape or
 // newline — something the sanitiser must take a decision about.
 func nontrivial(v string) bool { return strings.ContainsAny(v, ";:{}()\"'\\/*<>,@\n\r\f") }
@@ -489,6 +536,8 @@ func sweep(c *core.Ctx, b *bag, props []string, streams []stream, hashed bool) {
 func inProc(c *core.Ctx, b *bag) {
 	main3 := []string{"background-image", "font-family", "color"}
 	L := c.Pick(4, 6)
+	history(c, b, main3) // first: a cache inside the code under test must still be cold
+	sweep(c, b, main3, []stream{longValues()}, true)
 	// full enumerations against the three sanitiser classes that look at the value's structure
 	sweep(c, b, main3[:2], []stream{exhaustive(L)}, false)
 	sweep(c, b, main3[2:], []stream{exhaustive(c.Pick(4, 5))}, false)
@@ -504,6 +553,92 @@ func inProc(c *core.Ctx, b *bag) {
 	c.Set("exhaustive", false)
 	c.Set("exhaustive_subspace", fmt.Sprintf("every value of length <=%d over the %d-symbol alphabet %q, and the shapes url(X) url(\"X\") url('X') \"X\" \"\"X\"\" 'X' url()Xurl() url(\"\")Xurl(\"\") aXa with every X of length <=%d, and `\"X\", Y` / `X, Y` with every X,Y of length <=2, were enumerated completely for background-image, font-family and (plain values to length <=%d) color through safehtml.SanitizeCSS and templ.SanitizeCSS; length <=%d for display; <=3 for the other listed/unlisted names; <=2 for invalid names",
 		L, len(alphabet), strings.Join(alphabet, ""), c.Pick(3, 4), c.Pick(4, 5), c.Pick(4, 5)))
+}
+
+// trusted calls templ.SanitizeCSS with the text marked as trusted by the
+// application; the result is not judged (SafeCSSProperty is outside the statement).
+func trusted(p, v string) {
+	defer func() { _ = recover() }()
+	_ = templ.SanitizeCSS(p, templ.SafeCSSProperty(v))
+}
+
+// verdictAfterTrusted: the same text first as templ.SafeCSSProperty, then as a
+// plain and as a named string in the same process — the second and third
+// calls are judged like any other.
+func verdictAfterTrusted(p, v string) (cl Clause) {
+	trusted(p, v)
+	for _, f := range []func(string, string) (string, bool){emitTempl, emitTemplNamed} {
+		if o, pn := f(p, v); pn {
+			cl |= Rule | Declaration
+		} else {
+			cl |= checkMemo(o, p)
+		}
+	}
+	return cl
+}
+
+// history: call sequences within one process. Forward (even positions):
+// trusted(p,v) then the plain and named-string calls (judged). Control (odd
+// positions): plain (judged), trusted, plain again (judged). Sequential and before every other
+// call of templ.SanitizeCSS, shortest values first.
+func history(c *core.Ctx, b *bag, props []string) {
+	seen := map[string]bool{}
+	var vals []string
+	take := func(v string) {
+		if !seen[v] && nontrivial(v) {
+			seen[v] = true
+			vals = append(vals, v)
+		}
+	}
+	for _, st := range []stream{exhaustive(2), structured(1)} {
+		for p := 0; p < st.parts; p++ {
+			st.gen(p, take)
+		}
+	}
+	sort.SliceStable(vals, func(i, j int) bool { return len(vals[i]) < len(vals[j]) })
+	if n := c.Pick(1500, 6000); len(vals) > n {
+		vals = vals[:n]
+	}
+	record := func(p, v string, cl Clause, again func(string) Clause) {
+		for bit := Clause(1); bit <= HTML; bit <<= 1 {
+			if cl&bit != 0 && b.worth("sanitiser-history", classOf(p), bit, len(v)) {
+				mv := shrinkStr(v, func(t string) bool { return again(t)&bit != 0 })
+				b.add(witness{group: "sanitiser-history", class: classOf(p), clause: bit, p: p, v: mv})
+			}
+		}
+	}
+	// base: what the stateless sanitiser underneath makes of the pair; only
+	// what the call history adds on top of it is attributed to the history
+	base := func(p, v string) Clause {
+		o, pn := emitSafehtml(p, v)
+		if pn {
+			return Rule | Declaration
+		}
+		return checkMemo(o, p)
+	}
+	forward := func(p, v string) Clause { return verdictAfterTrusted(p, v) &^ base(p, v) }
+	control := func(p, v string) Clause {
+		b0, _ := verdictSanitiser(p, v)
+		trusted(p, v)
+		a0, _ := verdictSanitiser(p, v)
+		return (a0 | b0) &^ base(p, v)
+	}
+	n := 0
+	for i, v := range vals {
+		for _, p := range props {
+			seq := forward // even positions: trusted first; odd positions: the control order
+			if i%2 == 1 {
+				seq = control
+			}
+			if cl := seq(p, v); cl != 0 {
+				record(p, v, cl, func(t string) Clause { return seq(p, t) })
+			}
+			n += 2
+			c.NontrivialStr("history", p, v)
+		}
+	}
+	c.Eval(n)
+	c.Set("history_sequences(trusted_then_plain|control_order)", len(vals)*len(props))
 }
 
 // report turns the bag into violations, deterministically. One violation per
@@ -542,7 +677,10 @@ func report(c *core.Ctx, b *bag) {
 		g := groups[gk]
 		w := g.best
 		var what string
-		if w.group == "sanitiser" {
+		if w.group == "sanitiser-history" {
+			what = fmt.Sprintf("after templ.SanitizeCSS(%q, templ.SafeCSSProperty(%q)) (trusted, not judged), or around it, templ.SanitizeCSS(%q, %q) with the same text as an ordinary string %s in the same process, although the stateless sanitiser's output for the pair is clean (the result depends on the call history).",
+				w.p, w.v, w.p, w.v, explain(w.clause))
+		} else if w.group == "sanitiser" {
 			a, _ := emitSafehtml(w.p, w.v)
 			cl, _ := verdictSanitiser(w.p, w.v)
 			what = fmt.Sprintf("SanitizeCSS(%q, %q) emits %q, which %s when placed in `.x{a:b;…c:d}.canary{color:green}` (expected: at most the one declaration %q, or the innocuous name/value).",
@@ -559,7 +697,9 @@ func report(c *core.Ctx, b *bag) {
 			}
 		}
 		kind := "sanitiser"
-		if w.group != "sanitiser" {
+		if w.group == "sanitiser-history" {
+			kind = "history"
+		} else if w.group != "sanitiser" {
 			kind = "rendered"
 		}
 		c.Violate(w.key(), what, Case{Kind: kind, Sink: w.sink, P: enc(w.p), V: enc(w.v)})
@@ -637,6 +777,16 @@ func replay(c *core.Ctx) {
 				if cl&bit != 0 {
 					b.add(witness{group: "sanitiser", class: classOf(p), clause: bit, p: p, v: v})
 				}
+			}
+		}
+	case "history":
+		bs, _ := emitSafehtml(p, v)
+		cl := verdictAfterTrusted(p, v)
+		again, _ := verdictSanitiser(p, v)
+		cl = (cl | again) &^ checkMemo(bs, p)
+		for bit := Clause(1); bit <= HTML; bit <<= 1 {
+			if cl&bit != 0 {
+				b.add(witness{group: "sanitiser-history", class: classOf(p), clause: bit, p: p, v: v})
 			}
 		}
 	case "rendered":
